@@ -520,6 +520,31 @@ def run_tie(prop, spec, tier, seed):
                                     replay={"component": "locale", "ops": [line_of(small)], "input_latin1": small.decode("latin-1"),
                                             "class": cl, "expected": e, "got": o[0], "unshrunk": lines[i]}))
 
+    # the same function called during static initialisation (before any dynamic initialiser of LocaleInfo.cpp has run)
+    st_lines = ["loc static %d" % k for k in range(64)]
+    st_out, st_aborts = run_impl(binary, st_lines, max_aborts=2)
+    st_n = 0
+    for l, o in zip(st_lines, st_out):
+        if o == "none":
+            break
+        st_n += 1
+        if " => " not in o:
+            res.failures.append(Failure("violation", "LocaleInfo::get called during static initialisation of another translation unit: %s" % o[:300],
+                                        signature=l, replay={"component": "locale", "ops": [l], "got": o}))
+            break
+        h, got = o.split(" => ", 1)
+        s = bytes.fromhex(h) if h != "-" else b""
+        e = show(orc.get(s))
+        if got != e or not orc.in_tables(got):
+            res.failures.append(Failure("violation", "LocaleInfo::get(%r) called during static initialisation of a translation unit linked before LocaleInfo.cpp: "
+                                        "expected %s, got %s (the same call from main: %s)" % (s.decode("latin-1"), pretty(e), pretty(got), pretty(run_impl(binary, [line_of(s)], max_aborts=1)[0][0])),
+                                        signature=l, replay={"component": "locale", "ops": [l], "input_latin1": s.decode("latin-1"), "class": "static-init", "expected": e, "got": got}))
+            break
+    res.extra["static_init_calls"] = st_n
+    res.rule += "; + %d fixed strings passed to get() from a static initialiser of a translation unit linked BEFORE LocaleInfo.cpp" % st_n
+    if st_n == 0 and not res.failures:
+        res.failures.append(Failure("infra", "harness made no static-initialisation calls"))
+
     # model vs oracle
     if model is not None:
         bad = [i for i, (e, m) in enumerate(zip(exp, model)) if e != m]
@@ -559,11 +584,17 @@ def replay(prop, spec, path):
     orc = Oracle(lang, ctry)
     bad = False
     for l in ops:
-        h = l.split()[2]
-        s = bytes.fromhex(h) if h != "-" else b""
-        e = show(orc.get(s))
+        static = l.split()[1] == "static"
         out, rc, err = run_bin(binary, [l], symbolize=True)
         o = out[0] if out else "!ABORT rc=%d %s" % (rc, seqtie.summarize_err(err))
+        if static:
+            print("(get called during static initialisation of a translation unit linked before LocaleInfo.cpp)")
+            h, o = o.split(" => ", 1) if " => " in o else ("-", o)
+            l = "loc get " + h
+        else:
+            h = l.split()[2]
+        s = bytes.fromhex(h) if h != "-" else b""
+        e = show(orc.get(s))
         m = lib.run_driver([l, "loc orig " + h])[0]
         print("input   %r (%d bytes)" % (s.decode("latin-1"), len(s)))
         print("oracle  %s" % pretty(e))
